@@ -14,7 +14,7 @@ env = dict(os.environ, CARGO_NET_OFFLINE='true')
 seed = os.environ.get('VERIF_SEED', '1')
 t0 = time.time()
 jobs = 8
-cmd = ['cargo', '+nightly', 'fuzz', 'run', '-O', target, work, '--', f'-max_total_time={secs}', '-len_control=0', '-max_len=1024',
+cmd = ['cargo', '+nightly', 'fuzz', 'run', '-O', target, work, '--', f'-max_total_time={secs}', '-len_control=0', '-max_len=%d' % (1024 if target == 'stream' else 16384),
        f'-seed={seed}', f'-jobs={jobs}', f'-workers={jobs}', '-print_final_stats=1']
 p = subprocess.run(cmd, cwd=fz, env=env, capture_output=True, text=True)
 out = p.stdout + p.stderr
@@ -32,18 +32,42 @@ def esc(b):
 viol = 0
 crashes = sorted(glob.glob(os.path.join(art, '*')))
 binp = os.path.join(V, 'harness', 'target', 'release', pid.lower())
-for c in crashes:
-    data = open(c, 'rb').read()
-    if len(data) < 4: continue
-    body = bytearray(); digits = 0
-    for b in data[4:]:
+C02_EXTS = ["ans", "icy", "idf", "bin", "xb", "tnd", "pcb", "avt", "asc", "adf", "msg", "an1", "seq", "ata", "diz", "ice", "xyz", "an9"]
+C02_TARGET = {"ans": 0, "ice": 1, "diz": 2, "icy": 3, "idf": 4, "bin": 5, "xb": 6, "tnd": 7, "pcb": 8, "avt": 9, "asc": 10, "adf": 11, "msg": 12, "an1": 13, "an9": 21, "seq": 22, "ata": 23, "xyz": 24}
+C02_API = [(32, "sauce"), (33, "bitfont"), (34, "tdf"), (36, "palette"), (37, "palette"), (38, "palette"), (35, "palette"), (39, "palette")]
+
+def cut_digits(body, limit):
+    out = bytearray(); digits = 0
+    for b in body:
         if 0x30 <= b <= 0x39:
             digits += 1
-            if digits > 4: continue
+            if digits > limit: continue
         else: digits = 0
-        body.append(b)
-    case = {"emu": data[0] % 14, "w": 1 + data[1] % 132, "h": 1 + data[2] % 60, "shape": data[3] % 3, "data": esc(bytes(body))}
-    rf = {"property": pid, "part": "streams", "key": "fuzz", "msg": "found by libFuzzer target " + target, "seed": int(seed), "case": case}
+        out.append(b)
+    return bytes(out)
+
+def to_case(pid, data):
+    """artifact bytes -> (part, case) in the replay format of the property's binary"""
+    if pid == 'C01':
+        if len(data) < 4: return None
+        return "streams", {"emu": data[0] % 14, "w": 1 + data[1] % 132, "h": 1 + data[2] % 60, "shape": data[3] % 3, "data": esc(cut_digits(data[4:], 4))}
+    if pid == 'C02':
+        if len(data) < 1: return None
+        sel = data[0] % (len(C02_EXTS) + 8); body = data[1:]
+        if sel < len(C02_EXTS):
+            ext = C02_EXTS[sel]
+            if ext in ("ans", "pcb", "avt", "asc", "msg", "an1", "an9", "diz", "ice", "xyz"): body = cut_digits(body, 3)
+            return "buffer", {"target": C02_TARGET[ext], "src": {"Raw": esc(body)}, "inner": [], "muts": []}
+        t, part = C02_API[sel - len(C02_EXTS)]
+        return part, {"target": t, "src": {"Raw": esc(body)}, "inner": [], "muts": []}
+    return None
+
+for c in crashes:
+    data = open(c, 'rb').read()
+    pc = to_case(pid, data)
+    if pc is None: continue
+    part, case = pc
+    rf = {"property": pid, "part": part, "key": "fuzz", "msg": "found by libFuzzer target " + target, "seed": int(seed), "case": case}
     d = os.path.join(V, 'replay', pid); os.makedirs(d, exist_ok=True)
     path = os.path.join(d, 'fuzz-%s.json' % hashlib.sha1(data).hexdigest()[:12])
     json.dump(rf, open(path, 'w'), indent=1)
